@@ -249,6 +249,10 @@ def oracle_poly_domain(rng):
         gts.append(g)
         desc.append((kind, i, j, r))
     eqs = []
+    if rng.random() < 0.15:
+        gts, desc = [1 - x[idx[0]] * x[idx[-1]] if len(idx) >= 2 else x[idx[0]] + 2.0], [('only_nonconvex_ineq', 0, 0, 0)]
+        eqs.append(x[idx[0]] ** 2 - 4.0)
+        desc.append(('eq_square', idx[0], idx[0], 4.0))
     if rng.random() < 0.3 and len(idx) >= 2:
         eqs.append(x[idx[0]] ** 2 * x[idx[1]] ** 2 - 1.0)
         desc.append(('eq_prod', idx[0], idx[1], 1.0))
@@ -262,12 +266,22 @@ def oracle_poly_domain(rng):
             X = sp.infer_domain(x[0], gts, eqs)
         except RuntimeError as e:
             return None, ('raise', str(desc))
+    def convexifiable(g, eq):
+        even = bool(np.all(np.asarray(g.alpha) % 2 == 0))
+        cs = np.asarray(g.c, dtype=float)
+        return even and np.count_nonzero(cs > 0) == 1 and (not eq or np.count_nonzero(cs != 0) == 2)
+    nkept = sum(convexifiable(g, False) for g in gts) + sum(convexifiable(h, True) for h in eqs)
     if X is None:
+        if nkept > 0:
+            return ('infer_domain returned None although %d of the given polynomial constraints can be convexified (%s)' % (nkept, desc)), None
         return None, ('none', str(desc))
     vals = [0.5, -0.5, 1.0, -1.0, 1.5, -2.0, 2.0, -3.0, 3.0, 0.25, 10.0, -10.0]
     for _ in range(60):
         pt = np.array([rng.choice(vals) for _ in range(n)])
-        if eqs and rng.random() < 0.7:      # put the point on the equation x_a^2 x_b^2 = 1
+        kinds_ = [d_[0] for d_ in desc]
+        if 'eq_square' in kinds_ and rng.random() < 0.7:
+            pt[idx[0]] = rng.choice([2.0, -2.0])
+        if 'eq_prod' in kinds_ and rng.random() < 0.7:      # put the point on the equation x_a^2 x_b^2 = 1
             pt[idx[1]] = rng.choice([1.0, -1.0]) / pt[idx[0]]
         gv = [float(g(pt)) for g in gts]
         hv = [float(h(pt)) for h in eqs]
@@ -336,7 +350,7 @@ def run(ctx):
             try:
                 cg_ = cg.valid_posynomial_inequalities(go)
                 ce_ = cg.valid_monomial_equations(ho)
-                if any(h.m != 2 for h in ce_):
+                if any(h.m < 2 for h in ce_):
                     ctx.count('skipped', 'one-term equality (IndexError in clcons_from_standard_gprep)')
                     continue
                 x = None
